@@ -38,7 +38,8 @@ ASSUMPTIONS = ['constant RDMs excluded', 'optimality only for cosine, corr, rho-
                'ordering lower<=upper for cosine, corr, cosine_cov, corr_cov with singleton groups']
 REQUIRED = ['check:upper_unbeatable', 'check:pooled_attains_upper', 'check:lower_is_leave_one_out',
             'check:left_out_group_has_no_influence', 'check:lower_le_upper', 'check:invariance',
-            'check:cv_ceiling', 'check:common_nan_ignored', 'candidates_scored', 'pool_calls_traced']
+            'check:cv_ceiling', 'check:cv_ceiling_pattern_only', 'check:ceiling_leaves_data_unchanged',
+            'check:common_nan_ignored', 'candidates_scored', 'pool_calls_traced']
 REACH = ['boot_noise_ceiling', 'cv_noise_ceiling', 'pool_rdm', 'sets_leave_one_out_rdm', '_nan_mean',
          '_nan_rank_data']
 FAIL_KEYS = ['method', 'grouping', 'what']
@@ -145,6 +146,23 @@ def run_boot(ctx, method):
     if not ok:
         return
     lower, upper = float(out[0]), float(out[1])
+    # the ceilings of another method asked for afterwards on the *same* object are those of a pristine copy (the
+    # data RDMs are not altered by computing a ceiling)
+    ctx.case('ceiling_leaves_data_unchanged', sig)
+    if not np.array_equal(rd.dissimilarities, build(case).dissimilarities, equal_nan=True):
+        ctx.fail('ceiling_leaves_data_unchanged', dict(sig, what='data_modified'), f'boot_noise_ceiling(method={method!r}) '
+                 f'altered the data RDMs it was given', wit())
+        return
+    m2 = gen.pick(rng, [m for m in ('cosine', 'corr', 'rho-a') if m != method])
+    ok_a, again = ctx.guarded('ceiling_leaves_data_unchanged', sig, boot_noise_ceiling, rd, method=m2, rdm_descriptor=by,
+                              data=wit)
+    ok_b, fresh = ctx.guarded('ceiling_leaves_data_unchanged', sig, boot_noise_ceiling, build(case), method=m2,
+                              rdm_descriptor=by, data=wit)
+    if ok_a and ok_b and not close(np.array(again, dtype=float), np.array(fresh, dtype=float), 1e-12, 1e-14):
+        ctx.fail('ceiling_leaves_data_unchanged', dict(sig, what='history_dependent'), f'{m2} ceilings after a {method} '
+                 f'ceiling on the same object {tuple(map(float, again))} != on a fresh object {tuple(map(float, fresh))}',
+                 wit(second_method=m2))
+        return
     pools = tr.returns('pool_rdm')
     ctx.count('pool_calls_traced', len(pools))
     d = case['v'][:, keep]
@@ -346,6 +364,47 @@ def run_cv(ctx, method):
                  f'training RDMs at the test conditions {tuple(want)}', wit())
 
 
+def run_cv_pattern_only(ctx, method):
+    """cross-validation over conditions only (ceil_set is None): crossval computes, per fold, a leave-one-RDM-out
+    ceiling that must be the one of the data restricted to that fold's *test* conditions"""
+    from rsatoolbox.inference import crossval
+    from rsatoolbox.inference.crossvalsets import sets_k_fold_pattern
+    from rsatoolbox.model import ModelFixed
+    rng = ctx.rng
+    n_rdm, n_cond = int(rng.integers(3, 6)), int(rng.integers(9, 13))
+    v = gen.rdm_vectors(rng, n_rdm, n_cond, 'pos')
+    rd = RDMs(v.copy(), rdm_descriptors={'uid': list(range(n_rdm))}, pattern_descriptors={'puid': list(range(n_cond))})
+    k = int(rng.integers(2, 4))
+    sig = dict(method=method, k_pattern=k, grouping='pattern_only')
+    wit = lambda **x: dict(v=v, method=method, k=k, **x)  # noqa: E731
+    np.random.seed(int(rng.integers(2 ** 31)))
+    train_set, test_set, ceil_set = sets_k_fold_pattern(rd, 'puid', k=k, random=bool(rng.integers(2)))
+    if ceil_set is not None:
+        ctx.count('rejected_ceil_set_given')
+        return
+    model = ModelFixed('m', RDMs(gen.rdm_vectors(rng, 1, n_cond, 'pos'), pattern_descriptors={'puid': list(range(n_cond))}))
+    ok, res = ctx.guarded('cv_ceiling_pattern_only', sig, crossval, [model], rd, train_set, test_set, ceil_set=None,
+                          method=method, pattern_descriptor='puid', data=wit)
+    if not ok:
+        return
+    ctx.case('cv_ceiling_pattern_only', sig)
+    nc = np.asarray(res.noise_ceiling, dtype=float)
+    if nc.shape != (2, len(test_set)):
+        ctx.fail('cv_ceiling_pattern_only', dict(sig, what='shape'), f'noise ceiling shape {nc.shape} for '
+                 f'{len(test_set)} folds', wit())
+        return
+    iu = np.triu_indices(n_cond, 1)
+    for i, test in enumerate(test_set):
+        conds = sorted(int(c) for c in test[1])
+        cols = [j for j, (a, b) in enumerate(zip(iu[0], iu[1])) if a in conds and b in conds]
+        sub = RDMs(v[:, cols].copy())
+        want = np.array(boot_noise_ceiling(sub, method=method), dtype=float)
+        if not close(nc[:, i], want, 1e-9, 1e-12):
+            ctx.fail('cv_ceiling_pattern_only', dict(sig, what='value'), f'fold {i}: ceilings {nc[:, i].tolist()} are not '
+                     f'those of the data at the test conditions {conds}: {want.tolist()}', wit(fold=i))
+            return
+
+
 METHODS = ['cosine', 'corr', 'rho-a', 'cosine_cov', 'corr_cov', 'spearman']
 
 
@@ -360,5 +419,7 @@ def run(ctx):
             run_boot(ctx, m)
             if it % 3 == 0:
                 run_cv(ctx, gen.pick(ctx.rng, ['cosine', 'corr', 'rho-a']))
+            if it % 3 == 1:
+                run_cv_pattern_only(ctx, gen.pick(ctx.rng, ['cosine', 'corr', 'rho-a']))
         except Degenerate:
             ctx.count('degenerate_skipped')
